@@ -28,7 +28,7 @@ STUBS = []
 ASSUMPTIONS = ['real arithmetic (FFT rounding outside the claim)', 'band values no wider than the data dtype']
 RULE = 'case = (n, K, method, fft_size, batch); non-trivial = K >= 2 or batch; distinct keys'
 BUDGET = {'quick': 400, 'thorough': 2400}
-CASE_TIMEOUT = {'quick': 200, 'thorough': 600}
+CASE_TIMEOUT = {'quick': 120, 'thorough': 600}
 METHODS = ('dense', 'direct', 'fft', 'overlap_save')
 
 
